@@ -27,18 +27,27 @@ PROPS = {
     },
     "C03": {
         "coq": "Properties/C03.v",
+        "coq_extra": ["Properties/C03M.v"],
         "pinchecks": ["PinChecks/PcRoleGraph.v"],
         "gen": "c03",
         "level_text": "Coq theorems over Model/RoleGraph.v, for every history of add_link/delete_link/clear and every query: the per-domain "
                       "edge set refines the set-semantics spec (c03_links_refine), has_link is sound at every depth (c03_sound) and complete "
                       "for chains shorter than the limit (c03_complete; the queue-drain depth counter is proved <= the BFS level), listings are "
-                      "exactly the neighbours, other domains are untouched; the model is tied to DefaultRoleManager by a differential run "
-                      "(exhaustive short histories with small limits, random long ones around the limit 10)",
+                      "exactly the neighbours, other domains are untouched. EXTENSION (Properties/C03M.v over Model/RoleGraphM.v): the role manager WITH role / "
+                      "domain matching functions (Link and Match edges, pattern lookup of the start node, three-part successor iterator, matched domains) is "
+                      "modelled too; it is proved to coincide with the plain model on every history when no function is installed (c03m_conservative_*), its "
+                      "Match edges are characterised (c03m_match_edges_sound/complete, c03m_graph_refines), and has_link is sound at every depth and complete "
+                      "below the limit against a declarative pattern-reachability specification (c03m_sound, c03m_complete, c03m_pred_model). Both models are "
+                      "tied to DefaultRoleManager by a differential run (exhaustive short histories with small limits, random long ones around the limit 10; "
+                      "histories with key_match/key_match2/key_match3/a symmetric function installed as role and domain patterns)",
         "level_note": "trusted: Coq kernel, extraction, harness; modelled not verified: petgraph adjacency order (newest edge first), HashMap/HashSet; "
-                      "role/domain matching functions are not modelled (never set)",
+                      "role/domain matching functions are modelled for fn pointers (the crate's key_match* and one harness-defined function are exercised); "
+                      "HashMap iteration order of matched_domains is abstracted (all users are order-insensitive)",
         "explanation": "theorems c03_* over Model/RoleGraph.v; correspondence against casbin::DefaultRoleManager",
         "assumptions": [
-            "no role_matching_fn / domain_matching_fn is installed (matching functions are not modelled)",
+            "the plain C03 theorems are for a manager without matching functions (the enforcer's default); with matching functions the C03M theorems apply: "
+            "completeness is stated for add/clear histories with the function installed first (a delete_link may drop a Match edge: c03m_delete_can_drop_match_refuted); "
+            "add_link is not monotone for a non-transitive pattern function when it creates the start node (c03m_add_link_start_change_refuted)",
             "feature `cached` is on in the harness build: the role manager's own has_link cache is exercised by the differential run",
         ],
     },
